@@ -1,5 +1,12 @@
 """C18: BaseName._mapping / _tuple_mapping tables, the comparison shapes of Script.get_context and
-TreeContextMixin.create_context, node-type lists, fingerprints."""
+TreeContextMixin.create_context, node-type lists, fingerprints.
+
+Expected source shape = jedi with the repairs `fix: get_context compares the column with the start of
+the async statement` and `fix: parent() of a lambda in a class body is the class` (proposed_fixes/
+c18-async-def-column.diff, c18-lambda-parent-in-class.diff): the indentation loop of get_context moves
+from the funcdef to its async_stmt / async_funcdef parent before it compares columns, and
+BaseName.parent sends lambda names through create_context(lambda node).  The older shape (column of
+`def`, LambdaName.parent_context) raises TieBroken: the model no longer describes it."""
 import ast
 from translator.extract import Src, TieBroken, u, lean_list, lean_str, lean_bool
 
@@ -21,6 +28,7 @@ def generate(repo, g):
     names = Src(repo, 'jedi/inference/names.py')
     function = Src(repo, 'jedi/inference/value/function.py')
     putils = Src(repo, 'jedi/parser_utils.py')
+    instance = Src(repo, 'jedi/inference/value/instance.py')
 
     base = classes.find('BaseName')
     mapping = classes.const('_mapping', base)
@@ -49,14 +57,15 @@ def generate(repo, g):
         raise TieBroken('classes.py: full_name no longer rewrites names[0]', u(fn))
     g.define('fullNameMappedIndex', 'Nat', '0', 'jedi/api/classes.py:BaseName.full_name names[0] = ...')
 
-    # get_context: the three comparisons
+    # get_context: the comparisons
     gc = api.find('Script.get_context')
     cmps = [_cmp_shape(n) for n in ast.walk(gc) if isinstance(n, ast.Compare)]
     want = [['leaf.start_pos', '>', 'pos'], ["leaf.type", '==', "'endmarker'"], ['n', 'is not', 'None'],
             ['n.start_pos', '<', 'pos', '<=', 'n.children[-1].start_pos'],
             ['context.name', 'is', 'None'], ['definition.type', '!=', "'module'"],
             ['tree_name', 'is not', 'None'], ['scope.start_pos[1]', '<', 'column'],
-            ['previous_leaf', 'is not', 'None']]
+            ['previous_leaf', 'is not', 'None'],
+            ['scope.parent.type', 'in', "('async_stmt', 'async_funcdef')"]]
     for w in want:
         if w not in cmps:
             raise TieBroken('api/__init__.py: get_context comparison changed', '%r not in %r' % (w, cmps))
@@ -66,6 +75,22 @@ def generate(repo, g):
              'jedi/api/__init__.py:Script.get_context')
     g.define('indentRule', 'List String', lean_list(['scope.start_pos[1]', '<', 'column']),
              'jedi/api/__init__.py:Script.get_context')
+    # the indentation loop: scope = tree_name.get_definition(); async statements: scope = scope.parent;
+    # then the column comparison -- in this order, in one block
+    blocks = [n for n in ast.walk(gc) if isinstance(n, ast.If) and u(n.test) == 'tree_name is not None']
+    if len(blocks) != 1 or len(blocks[0].body) != 3 or blocks[0].orelse:
+        raise TieBroken('api/__init__.py: get_context indentation loop shape', u(gc))
+    first, asy, col = blocks[0].body
+    if u(first) != 'scope = tree_name.get_definition()' or not isinstance(asy, ast.If) or asy.orelse \
+            or [u(x) for x in asy.body] != ['scope = scope.parent'] \
+            or not isinstance(asy.test, ast.Compare) or u(asy.test.left) != 'scope.parent.type' \
+            or not isinstance(asy.test.ops[0], ast.In) \
+            or not isinstance(col, ast.If) or u(col.test) != 'scope.start_pos[1] < column' \
+            or [u(x) for x in col.body] != ['break']:
+        raise TieBroken('api/__init__.py: get_context indentation loop: expected get_definition(), the move to the '
+                        'async statement, the column comparison', u(blocks[0]))
+    g.define('indentStatementParents', 'List String', lean_list(list(ast.literal_eval(asy.test.comparators[0]))),
+             'jedi/api/__init__.py:Script.get_context `if scope.parent.type in (...): scope = scope.parent`')
     calls = [n for n in ast.walk(gc) if isinstance(n, ast.Call) and isinstance(n.func, ast.Attribute)
              and n.func.attr == 'search_ancestor']
     if len(calls) != 1:
@@ -90,6 +115,20 @@ def generate(repo, g):
     if len(calls) != 1:
         raise TieBroken('classes.py: BaseName.parent search_ancestor calls', str(len(calls)))
     g.define('parentAncestorTypes', 'List String', lean_list([ast.literal_eval(a) for a in calls[0].args]),
+             'jedi/api/classes.py:BaseName.parent')
+    # lambdas: if <tree route> elif isinstance(name, (LambdaName, FunctionNameInClass)): create_context(lambda node)
+    # else: name.parent_context
+    top = [n for n in par.body if isinstance(n, ast.If) and ins[0] in list(ast.walk(n.test))]
+    if len(top) != 1 or len(top[0].orelse) != 1 or not isinstance(top[0].orelse[0], ast.If):
+        raise TieBroken('classes.py: BaseName.parent has no lambda branch after the tree route', u(par))
+    lam_if = top[0].orelse[0]
+    if [u(x) for x in lam_if.orelse] != ['context = self._name.parent_context']:
+        raise TieBroken('classes.py: BaseName.parent fallback branch', u(lam_if))
+    body = [u(x) for x in lam_if.body]
+    if len(body) != 2 or body[0] != 'lambda_value, = self._name.infer()' or not body[1].startswith('context = '):
+        raise TieBroken('classes.py: BaseName.parent lambda branch', repr(body))
+    g.define('lambdaParentTest', 'String', lean_str(u(lam_if.test)), 'jedi/api/classes.py:BaseName.parent')
+    g.define('lambdaParentContext', 'String', lean_str(body[1][len('context = '):]),
              'jedi/api/classes.py:BaseName.parent')
 
     # create_context: header comparison and the scope node types
@@ -117,6 +156,10 @@ def generate(repo, g):
     lam = function.find('LambdaName')
     g.define('lambdaName', 'String', lean_str(function.const('string_name', lam)),
              'jedi/inference/value/function.py:LambdaName.string_name')
+    linf = function.find('LambdaName.infer')
+    rets = [u(n.value) for n in ast.walk(linf) if isinstance(n, ast.Return)]
+    if rets != ['ValueSet([self._lambda_value])']:
+        raise TieBroken('function.py: LambdaName.infer no longer returns the lambda value alone', repr(rets))
 
     for s, d in [(api, 'Script.get_context'), (context, 'TreeContextMixin.create_context'),
                  (context, 'TreeContextMixin.create_value'), (classes, 'BaseName.parent'),
@@ -125,5 +168,7 @@ def generate(repo, g):
                  (names, 'ValueNameMixin._get_qualified_names'), (names, '_ParamMixin.get_qualified_names'),
                  (function, 'FunctionAndClassBase.get_qualified_names'), (function, 'MethodValue.get_qualified_names'),
                  (function, 'FunctionValue.from_context'), (function, 'FunctionMixin.name'),
+                 (function, 'LambdaName.infer'), (function, 'MethodValue.name'),
+                 (instance, 'BoundMethod.name'),
                  (context, 'AbstractContext.get_qualified_names'), (putils, 'is_scope')]:
         g.fp(s, d)
